@@ -329,6 +329,17 @@ func runRoundTrip(res *evid.Result, c rtCase) {
 
 	out := scratchFile("out")
 	defer os.Remove(out)
+	if len(c.List)%2 == 0 {
+		// the export target already exists and is LONGER than what will be written (an earlier
+		// export of a bigger database, or the source file itself): the file afterwards is the
+		// new document and nothing else
+		old := append(append([]byte{}, c.Data...), []byte("\n"+strings.Repeat(" ", 4096)+"\n[\"left over from the previous file\"]\n")...)
+		if err := os.WriteFile(out, old, 0o644); err != nil {
+			viol("harness/prefill", err.Error())
+			return
+		}
+		res.Count("exports_over_longer_existing_file", 1)
+	}
 	if err := st.db.ExportToJSON(out); err != nil {
 		viol("export/error", err.Error())
 		return
